@@ -20,6 +20,8 @@ func init() {
 			{"actorsys", "MC_ActorSys", "MC_T3_fix.cfg"}, {"future", "MC_Future", "MC_A_fix.cfg"}, {"remoting", "Link", "MC_Link.cfg"},
 			{"remoting", "Handshake", "MC_Handshake_fix.cfg"}, {"sched", "MC_Sched", "MC_Sched_pair.cfg"}, {"gossip", "MC_Gossip", "MC_Join3.cfg"},
 			{"gossip", "MC_Gossip", "MC_Fault3.cfg"}, {"gossip", "MC_Gossip", "MC_FD2.cfg"}, {"confine", "MC_Confine", "MC_Confine_fix.cfg"},
+			{"future", "Registry", "MC_Registry_fix.cfg"}, {"remoting", "Link", "MC_Link_flaky.cfg"}, {"gossip", "MC_Gossip", "MC_Restart2_mi.cfg"},
+			{"syslife", "MC_SysLife", "MC_F_fix.cfg"}, {"syslife", "MC_SysLife", "MC_G_fix.cfg"},
 			{"syslife", "MC_SysLife", "MC_B_fix.cfg"}, {"syslife", "MC_SysLife", "MC_C_fix.cfg"}, {"syslife", "MC_SysLife", "MC_D_fix.cfg"}, {"syslife", "MC_SysLife", "MC_E_fix.cfg"},
 		}
 		sc, err := tlc.NewScratch()
